@@ -344,6 +344,11 @@ SaveWith(wb, ords, ords2) ==
       nfonts |-> 1, nfills |-> 2, nborders |-> 1, ncsx |-> 1, numfmts |-> [k \in 1..(Len(xfs) - 1) |-> 164 + k],
       tableids |-> [k \in 1..a6[2] |-> k], sst |-> sst, names |-> AllNames(wb)]
 SavePkg(wb, ords) == SaveWith(wb, ords, ords)
+CanonOrd(S) == SetToSortSeq(ExtLinks(S), LAMBDA a, b : a.r < b.r \/ (a.r = b.r /\ a.c < b.c))
+(* what does not depend on the enumeration order: the parts and, per source, the relationships by type and target *)
+Skeleton(p) == [parts |-> PartNames(p),
+                rels  |-> UNION {{[src |-> p.rels[i].src, kind |-> it.kind, target |-> it.target] : it \in Rng(p.rels[i].items)}
+                                 : i \in DOMAIN p.rels}]
 
 (* the independent reader on the abstract package: shared strings by index, hyperlink targets through the
    relationships of the sheet part *)
